@@ -257,7 +257,7 @@ fn multisets(kinds: usize, size: usize, f: &mut dyn FnMut(&[usize])) {
 
 pub fn run(tier: Tier) -> Report {
     let rep = Report::new("C17", tier);
-    rep.set_rule("every multiset of <= K stream items over Q queries x T tracks x distances {.25,.5,1,2,None} (quick: 2x2, K=4; thorough: 3x3 K=4 and 2x2 K=6), every permutation of streams of <= 4 items (rotations, reversal and adjacent transpositions of the canonical order for 5-6 items), N in {1,2,3}, min_votes in {1,2}, max_distance in {.5,.75,1,1.5,2,10} (three of them equal to a distance of the menu: 'not exceeding' is decided at equality); TopN and BestFit judged against the counting rules, results of tie-free streams required identical across orders; VisualVoting and Hungarian voting judged structurally. Non-trivial = at least two items.");
+    rep.set_rule("every multiset of <= K stream items over Q queries x T tracks x distances {.25,.5,1,2,None} (quick: 2x2, K=4; thorough: 3x3 K=4 and 2x2 K=6), plus streams in which queries and tracks share ONE id space {1,2,3} (every ordered pair q != t x distances {.25,.5,1}, K=4 quick / 5 thorough), every permutation of streams of <= 4 items (rotations, reversal and adjacent transpositions of the canonical order for 5-6 items), N in {1,2,3}, min_votes in {1,2}, max_distance in {.5,.75,1,1.5,2,10} (three of them equal to a distance of the menu: 'not exceeding' is decided at equality); TopN and BestFit judged against the counting rules, results of tie-free streams required identical across orders; VisualVoting and Hungarian voting judged structurally. Non-trivial = at least two items.");
     let dmenu: Vec<Option<f32>> = vec![Some(0.25), Some(0.5), Some(1.0), Some(2.0), None];
     let params: Vec<(usize, usize, f32)> = {
         let mut p = vec![];
@@ -272,12 +272,22 @@ pub fn run(tier: Tier) -> Report {
     };
     let evals = AtomicU64::new(0);
     let nontrivial = AtomicU64::new(0);
-    let configs: Vec<(usize, usize, usize)> = tier.pick(vec![(2, 2, 4)], vec![(3, 3, 4), (2, 2, 6), (2, 3, 5)]);
-    for (nq, nt, kmax) in configs {
+    // the last configuration has queries and tracks in ONE id space {1,2,3} (merging tracks of one store:
+    // a query's own id is also some other query's candidate track); pairs of a track with itself do not occur
+    let configs: Vec<(usize, usize, usize, bool)> = tier.pick(vec![(2, 2, 4, false), (3, 3, 4, true)], vec![(3, 3, 4, false), (2, 2, 6, false), (2, 3, 5, false), (3, 3, 5, true)]);
+    for (nq, nt, kmax, shared) in configs {
         let kinds: Vec<Item> = {
             let mut k = vec![];
             for q in 0..nq {
                 for t in 0..nt {
+                    if shared {
+                        if q != t {
+                            for d in [0.25f32, 0.5, 1.0] {
+                                k.push((1 + q as u64, 1 + t as u64, Some(d)));
+                            }
+                        }
+                        continue;
+                    }
                     for d in &dmenu {
                         k.push((QB + q as u64, TB + t as u64, *d));
                     }
